@@ -144,21 +144,37 @@ class Knobs:
 DEFAULT = Knobs()
 
 
+def _cmt(kn, key):
+    """deterministic comment / blank-line decoration for layout knobs"""
+    if not kn.comments:
+        return None
+    h = (hash_name(key) * 2654435761) & 0xFFFF
+    return [None, "// note %d" % (h % 97), "/* blk %d */" % (h % 89), "", None][h % 5]
+
+
 def block(n, kn, ind):
     """render n as the contents of a `{ }` block: a sequence of statements ending in an expression"""
     pad = "  " * ind
     lines = []
+    _lines_append = lines.append
+
+    def add(line, key):
+        c = _cmt(kn, key)
+        if c is not None:
+            lines.append(pad + c if c else "")
+        tail = _cmt(kn, key + "t")
+        lines.append(line + ((" " + tail) if tail else ""))
     while n.kind in ("let", "lett", "set"):
         if n.kind == "let":
-            lines.append(f"{pad}let {kn.name(n.a[0])} = {src(n.a[1], kn, ind)}")
+            add(f"{pad}let {kn.name(n.a[0])} = {src(n.a[1], kn, ind)}", n.a[0])
             n = n.a[2]
         elif n.kind == "lett":
-            lines.append(f"{pad}let ({', '.join(kn.name(x) for x in n.a[0])}) = {src(n.a[1], kn, ind)}")
+            add(f"{pad}let ({', '.join(kn.name(x) for x in n.a[0])}) = {src(n.a[1], kn, ind)}", n.a[0][0])
             n = n.a[2]
         else:
-            lines.append(f"{pad}{kn.name(n.a[0])} = {src(n.a[1], kn, ind)}")
+            add(f"{pad}{kn.name(n.a[0])} = {src(n.a[1], kn, ind)}", n.a[0] + "s")
             n = n.a[2]
-    lines.append(pad + src(n, kn, ind))
+    add(pad + src(n, kn, ind), "tail%d" % len(lines))
     return "\n".join(lines)
 
 
@@ -187,6 +203,9 @@ def src(n, kn=DEFAULT, ind=0, prec=0):
     if k in ("let", "lett", "set"):
         return "(" + braces(n, kn, ind) + ")"
     if k == "tup":
+        if kn.nl:
+            pad = "  " * (ind + 2)
+            return "(\n" + pad + f",\n{pad}".join(src(x, kn, ind) for x in a[0]) + ")"
         return "(" + ", ".join(src(x, kn, ind) for x in a[0]) + ")"
     if k == "proj":
         inner = src(a[0], kn, ind, 9)
@@ -197,6 +216,9 @@ def src(n, kn=DEFAULT, ind=0, prec=0):
         args = [src(x, kn, ind) for x in a[1]]
         if kn.pipe and len(args) == 1:
             return f"({args[0]} |> {kn.name(a[0])})"
+        if kn.nl and len(args) > 1:
+            pad = "  " * (ind + 2)
+            return f"{kn.name(a[0])}(\n{pad}" + f",\n{pad}".join(args) + ")"
         return f"{kn.name(a[0])}({', '.join(args)})"
     if k == "app":
         f = src(a[0], kn, ind, 9)
@@ -204,7 +226,7 @@ def src(n, kn=DEFAULT, ind=0, prec=0):
             f = f"({f})"
         return f"{f}({', '.join(src(x, kn, ind) for x in a[1])})"
     if k == "lam":
-        return f"|{', '.join(kn.name(x) for x in a[0])}| {braces(a[1], kn, ind)}"
+        return f"|{', '.join(kn.name(x) + (':float' if kn.annotate else '') for x in a[0])}| {braces(a[1], kn, ind)}"
     if k == "self":
         return "self"
     if k == "mem":
@@ -229,7 +251,10 @@ class Fn:
 
     def src(self, kn=DEFAULT):
         ps = ", ".join(kn.name(p) + (":float" if self.name == "dsp" or kn.annotate else "") for p in self.params)
-        return f"fn {kn.name(self.name) if self.name != 'dsp' else 'dsp'}({ps}) {braces(self.body, kn, 0)}"
+        rt = ""
+        if kn.annotate:
+            rt = " -> float" if self.ret == F else " -> (" + ", ".join("float" for _ in self.ret[1:]) + ")"
+        return f"fn {kn.name(self.name) if self.name != 'dsp' else 'dsp'}({ps}){rt} {braces(self.body, kn, 0)}"
 
 
 class Prog:
@@ -663,3 +688,32 @@ def shrink(p, pred, budget=400):
         return Prog(p.globals, p.fns, Fn(d.name, d.params, d.ptypes, d.ret, body, d.uses_self, d.stateful))
     p = with_dsp(shrink_node(p.dsp.body, with_dsp, pred, b))
     return p
+
+
+def user_names(p):
+    """all user-chosen identifiers of a program (globals, functions, params, let-bound and lambda-bound names)"""
+    names = []
+
+    def walk(n):
+        if n.kind == "let":
+            names.append(n.a[0])
+        elif n.kind == "lett":
+            names.extend(n.a[0])
+        elif n.kind == "lam":
+            names.extend(n.a[0])
+        for _, ch in children(n):
+            walk(ch)
+    for x, e in p.globals:
+        names.append(x)
+        walk(e)
+    for f in p.fns + [p.dsp]:
+        if f.name != "dsp":
+            names.append(f.name)
+        names.extend(f.params)
+        walk(f.body)
+    seen, out = set(), []
+    for x in names:
+        if x not in seen:
+            seen.add(x)
+            out.append(x)
+    return out
